@@ -12,7 +12,8 @@ EXTENDS Naturals, FiniteSets, TLC, Json
 CONSTANTS Emit, MaxProblems
 \* format = `format --exit-code`, format-write = `format --exit-code -w` (rewrites the files and must still tell)
 Commands == {"build", "lint", "breaking", "format", "format-write"}
-Problems == {"compile-error", "malformed-import", "missing-import", "many-lint-violations", "lint-violation", "multi-line-lint", "breaking-change", "deleted-file", "format-diff"}
+\* escaping-import: an import whose path climbs out of the module ("../x.proto") - still a problem of the sources
+Problems == {"compile-error", "malformed-import", "missing-import", "escaping-import", "many-lint-violations", "lint-violation", "multi-line-lint", "breaking-change", "deleted-file", "format-diff"}
 Operational == {"none", "bad-flag", "missing-input", "bad-config"}
 Spellings == {"dot", "absolute", "dot-slash", "protofile-with-package"}
 
@@ -30,16 +31,16 @@ Init == /\ command \in Commands
         /\ (command = "format-write" => (spelling = "dot" /\ ~hostilePath))
         /\ (hostilePath => spelling = "dot")
         \* a file that does not compile cannot be compared: breaking problems need a compiling tree
-        /\ ~({"compile-error", "malformed-import", "missing-import"} \cap problems # {} /\ {"breaking-change", "deleted-file"} \cap problems # {})
+        /\ ~({"compile-error", "malformed-import", "missing-import", "escaping-import"} \cap problems # {} /\ {"breaking-change", "deleted-file"} \cap problems # {})
 Next == UNCHANGED vars
 Spec == Init /\ [][Next]_vars
 
 \* which planted problems a command reports
 Relevant(c) ==
-  CASE c = "build"    -> {"compile-error", "malformed-import", "missing-import"}
+  CASE c = "build"    -> {"compile-error", "malformed-import", "missing-import", "escaping-import"}
     \* many-lint-violations: one file with 70 violations, several KiB of output in every format
-    [] c = "lint"     -> {"compile-error", "malformed-import", "missing-import", "lint-violation", "multi-line-lint", "many-lint-violations"}
-    [] c = "breaking" -> {"compile-error", "malformed-import", "missing-import", "breaking-change", "deleted-file"}
+    [] c = "lint"     -> {"compile-error", "malformed-import", "missing-import", "escaping-import", "lint-violation", "multi-line-lint", "many-lint-violations"}
+    [] c = "breaking" -> {"compile-error", "malformed-import", "missing-import", "escaping-import", "breaking-change", "deleted-file"}
     \* the file planted for the multi-line range (two fields on one line) is not canonically formatted either
     [] c \in {"format", "format-write"} -> {"format-diff", "multi-line-lint"}
 \* the file under the hostile directory declares a package that does not match it (a lint violation) and
